@@ -387,6 +387,7 @@ def generate_c08_template(seed, tier):
     scn.update({'prop': 'C08', 'seed': seed, 'template': True, 'auto': False, 'probe_before_build': False, 'build_rule': 1000})
     if scn['style'] == 'auto':
         scn['style'] = 'range'
+    scn['per_class'] = [max(2, p) for p in scn['per_class']]
     nm = r.randint(2, 40)
     scn['nm'] = nm
     scn['match_cuts'] = sorted(set(r.sample(range(1, nm), r.choice([0, 0, 1, 2]) if nm > 2 else 0)))
@@ -879,10 +880,18 @@ def generate_c14(seed, tier):
         classes = list(range(k))
     per = [r.randint(2, 7 if k <= 9 else 3) for _ in range(k)]
     L = r.randint(1, 6)
+    # declared classes that receive no (or a single) building trace: the statement averages over the *declared* classes, so such a class
+    # contributes a zero matrix and still counts in the divisor; its template is not defined and is not compared
+    er = rng.stream(seed, 'emptyclasses')
+    if k >= 3 and er.random() < 0.2:
+        cand = list(range(k - 1)) if style == 'auto' else list(range(k))
+        for ci in er.sample(cand, er.randint(1, min(len(cand), k - 2))):
+            per[ci] = er.choice([0, 0, 1])
     # well-conditioned pooled covariance: within-class degrees of freedom comfortably above the trace length
+    pop = [i for i in range(k) if per[i] >= 2]
     ci = 0
-    while sum(p - 1 for p in per) < 2 * L + 2:
-        per[ci % k] += 1
+    while sum(per[i] - 1 for i in pop) < 2 * L + 2:
+        per[pop[ci % len(pop)]] += 1
         ci += 1
     scn = {'prop': 'C14', 'engine': 'pipeline', 'seed': seed, 'kind': r.choice(['tstatic', 'tdpa']), 'style': style, 'classes': classes,
            'auto': style == 'auto', 'L': L, 'precision': r.choice(['float32', 'float64']),
@@ -930,9 +939,9 @@ def c14_model(Tb, vb, classes, Tm, hyp=None):
     T = Tb.astype('float64')
     M = Tm.astype('float64')
     L = T.shape[1]
-    mus = np.array([T[vb == c].mean(0) for c in classes])
-    covs = [np.atleast_2d(np.cov(T[vb == c].T, ddof=1)) for c in classes]
-    S = np.mean(covs, axis=0)
+    mus = np.array([T[vb == c].mean(0) if (vb == c).any() else np.full(L, np.nan) for c in classes])
+    covs = [np.atleast_2d(np.cov(T[vb == c].T, ddof=1)) if (vb == c).sum() >= 2 else np.zeros((L, L)) for c in classes]
+    S = np.sum(covs, axis=0) / len(classes)
     P = np.linalg.pinv(S)
     n = M.shape[0]
     if hyp is None:
@@ -1002,9 +1011,10 @@ def execute_c14(scn):
                 # ill-conditioned pooled covariance: pinv is not comparable across roundings (precondition, DESIGN 4.3)
                 return {'violation': None, 'inconclusive': True, 'digest': rng.digest(storage.events), 'case': 'illcond', 'nontrivial': False,
                         'faults': {}, 'probes': {'ill_conditioned_covariance': 1}, 'sim_time': storage.seq}
-            if not compare.close(att.templates, mus, tol):
+            popm = ~np.isnan(mus).any(axis=1)            # classes with at least one building trace: their template is defined
+            if np.asarray(att.templates).shape != mus.shape or not compare.close(np.asarray(att.templates)[popm], mus[popm], tol):
                 violation = viol('templates_differ_from_model', ['C14', 'templates_differ_from_model'] + sig_tail,
-                                 'maxdiff=%s' % compare.maxdiff(att.templates, mus))
+                                 'maxdiff=%s' % compare.maxdiff(np.asarray(att.templates)[popm] if np.asarray(att.templates).shape == mus.shape else att.templates, mus[popm]))
             elif not compare.close(att.pooled_covariance, S, tol):
                 violation = viol('covariance_differs_from_model', ['C14', 'covariance_differs_from_model'] + sig_tail,
                                  'maxdiff=%s got=%s want=%s' % (compare.maxdiff(att.pooled_covariance, S), compare.describe(att.pooled_covariance), compare.describe(S)))
@@ -1024,15 +1034,15 @@ def execute_c14(scn):
             try:
                 att.build()
                 musA, SA, scA = c14_model(np.concatenate([Tb, Tb]), np.concatenate([vb, vb]), classes, Tm, hyp)
-                okA = compare.close(att.templates, musA, tol) and compare.close(att.pooled_covariance, SA, tol)
-                okB = compare.close(att.templates, mus, tol) and compare.close(att.pooled_covariance, S, tol)
+                okA = compare.close(np.asarray(att.templates)[popm], musA[popm], tol) and compare.close(att.pooled_covariance, SA, tol)
+                okB = compare.close(np.asarray(att.templates)[popm], mus[popm], tol) and compare.close(att.pooled_covariance, S, tol)
                 probes['second_build'] = 1
                 if okA and np.linalg.cond(SA) <= 1e3:
                     mus, S, sc = musA, SA, scA
                 elif not okB:
                     violation = viol('second_build_differs_from_model', ['C14', 'second_build_differs_from_model'] + sig_tail,
                                      'after a second build(): templates maxdiff vs accumulated model %s / vs fresh model %s; covariance %s / %s' % (
-                                         compare.maxdiff(att.templates, musA), compare.maxdiff(att.templates, mus),
+                                         compare.maxdiff(np.asarray(att.templates)[popm], musA[popm]), compare.maxdiff(np.asarray(att.templates)[popm], mus[popm]),
                                          compare.maxdiff(att.pooled_covariance, SA), compare.maxdiff(att.pooled_covariance, S)))
             except Exception as e:
                 violation = viol('build_raised', ['C14', 'build_raised'] + sig_tail + [type(e).__name__, 'second'], 'second build() raised %r' % (e,))
@@ -1045,10 +1055,18 @@ def execute_c14(scn):
                     att.run(mk_container(lo, hi, 'match%d' % j))
                 got = np.asarray(att.scores).ravel()
                 stol = tol * 10
+                if not popm.all():
+                    # a candidate whose template is undefined has no defined score: static attack - compare the populated classes only;
+                    # DPA attack - hypotheses range over all classes, nothing to compare
+                    probes['empty_declared_class'] = 1
+                    if kind == 'tstatic' and got.shape == sc.shape:
+                        got, sc = got[popm], sc[popm]
+                    else:
+                        got, sc = got[:0], sc[:0]
                 if got.shape != sc.shape or not compare.close(got, sc, tol, stol):
                     violation = viol('scores_differ_from_model', ['C14', 'scores_differ_from_model'] + sig_tail,
                                      'got=%s want=%s' % (got[:6].tolist(), sc[:6].tolist()))
-                else:
+                elif len(sc):
                     best = int(np.argmax(sc))
                     lead = sc[best] - np.partition(sc, -2)[-2] if len(sc) > 1 else 1.0
                     if lead > 4 * stol * max(1.0, abs(sc[best])) and int(np.argmax(got)) != best:
@@ -1068,9 +1086,10 @@ def precondition(scn):
         return len(scn['classes']) >= 2 and all(p >= 2 for p in scn['per_class']) and len(scn['per_class']) == len(scn['classes']) and scn['nm'] >= 1 \
             and sum(p - 1 for p in scn['per_class']) >= 2 * scn['L'] + 2 and scn['step'] >= 1 and 0 <= scn['key'] < len(scn['classes'])
     if scn['prop'] == 'C14':
-        return len(scn['classes']) >= 2 and all(p >= 2 for p in scn['per_class']) and len(scn['per_class']) == len(scn['classes']) and scn['nm'] >= 1 \
-            and sum(p - 1 for p in scn['per_class']) >= 2 * scn['L'] + 2 \
-            and 0 <= scn['key'] < len(scn['classes']) and (not scn['auto'] or scn['classes'] == list(range(len(scn['classes']))))
+        per = scn['per_class']
+        return len(scn['classes']) >= 2 and sum(1 for p in per if p >= 2) >= 2 and len(per) == len(scn['classes']) and scn['nm'] >= 1 \
+            and sum(p - 1 for p in per if p >= 2) >= 2 * scn['L'] + 2 \
+            and 0 <= scn['key'] < len(scn['classes']) and (not scn['auto'] or (scn['classes'] == list(range(len(scn['classes']))) and per[-1] >= 1))
     if not scn['sets'] or any(n < 1 for n in scn['sets']):
         return False
     if scn['m'] < 2:
